@@ -48,6 +48,9 @@ ASSUMPTIONS = [
     'assignment through the proxy while nothing is loaded is executed but its own outcome is not judged '
     '(the following observation is)',
     'paths are compared after resolution: the configured name found as given or first on the search path',
+    'setting names and enumeration values are given in upper / mixed case in file B and in keyword arguments A / C '
+    '(case-insensitive models); where the file spells a key in another case than the packaged defaults, '
+    'load fileB+kwC gives the same setting in different spellings in the two layers, both ways round',
     '`path` / `data_path_overrides` are compared only for loads that name them (then they are overlay values)',
     'deduplicated exploration merges histories that agree on reference-machine state, on the implementation '
     'discriminators (singleton set?, proxy attributes, fields set, cached species set) and on their last k events; '
